@@ -581,9 +581,12 @@ class FillRequest(object):
                 else:
                     # at least one event present
                     # this would give bad performance for bufsize=1
-                    for val in el_run(chain([val],
-                                            islice(flow, bufsize-1))):
+                    slice_ = chain([val], islice(flow, bufsize-1))
+                    for val in el_run(slice_):
                         yield val
+                    # el.run might not read the whole slice
+                    for val in slice_:
+                        pass
                     # usually Run elements have no reset, but...
                     # we call reset here, because we don't call request
                     # (which usually calls reset itself)
@@ -598,15 +601,17 @@ class FillRequest(object):
 
             def __init__(self, size, seq):
                 self.count = 0
-                self._size = size
-                self._seq = seq
+                self._slice = islice(seq, size)
 
             def __iter__(self):
-                count = 0
-                for val in islice(self._seq, self._size):
-                    count += 1
-                    yield val
-                self.count = count
+                return self
+
+            def __next__(self):
+                val = next(self._slice)
+                self.count += 1
+                return val
+
+            next = __next__  # Python 2
 
         if self._buffer_input:
             while True:
@@ -625,10 +630,12 @@ class FillRequest(object):
                     self._el_reset()
         else:
             # buffer output
-            # slice_ can be iterated multiple times
-            slice_ = slice_iterated_with_count(bufsize, flow)
             while True:
+                slice_ = slice_iterated_with_count(bufsize, flow)
                 results = list(el_run(slice_))
+                # el.run might not read the whole slice
+                for val in slice_:
+                    pass
                 if slice_.count < bufsize:
                     return
                 for val in results:
